@@ -49,8 +49,12 @@ def check(prop, tier, seed):
         # bounds, string / tuple / None choices, 40 dimensions, an objective that scribbles on its argument, a user subclass
         # of ContinuousVariable with its own correct(), 0-d array objective values); audited (audit/types_v2.json)
         items += [{"y": k} for k in range(len(universe.types_battery()))]
-    if prop == "C02":
-        items += [{"n": k} for k in range(len(universe.battery_inf()))]      # non-finite objective values
+    if prop in ("C02", "C03", "C10", "C17"):
+        # non-finite objective values, audited (audit/inf_v2.json): a death penalty (+inf on min / -inf on max tasks outside a
+        # feasible box) and an unbounded reward (-inf on min / +inf on max tasks on a target box).  Judged by the result-level
+        # oracles of these four properties only: infinite costs drive several update rules into inf-inf arithmetic, whose NaN
+        # positions are outside what C01 / C05 / C06 are checked on
+        items += [{"n": k} for k in range(len(universe.battery_inf()))]
     if prop == "C10":
         # extended population sizes (odd, not multiples of group counts); audited separately (audit/ext_v2.json)
         import random as _r
